@@ -26,18 +26,43 @@ pub struct Vocab {
     pub words: Vec<Vec<u8>>,
     pub eos: u32,
     pub canonical: bool,
+    /// further end-of-sequence tokens (TokTrie::with_eos_tokens); `eos` stays the primary one
+    pub eos_extra: Vec<u32>,
 }
 
 impl Vocab {
     pub fn env(&self) -> TokEnv {
         let info = TokRxInfo::new(self.words.len() as u32, self.eos);
-        Arc::new(VEnv {
-            trie: TokTrie::from(&info, &self.words),
-            canonical: self.canonical,
-        })
+        let mut trie = TokTrie::from(&info, &self.words);
+        if !self.eos_extra.is_empty() {
+            let mut all = vec![self.eos];
+            all.extend_from_slice(&self.eos_extra);
+            trie = trie.with_eos_tokens(&all);
+        }
+        Arc::new(VEnv { trie, canonical: self.canonical })
     }
     pub fn n(&self) -> usize {
         self.words.len()
+    }
+    /// `"eos_extra_names": ["<|user|>", ..]` makes the special tokens with these names further EOS tokens
+    pub fn add_auto_eos(&mut self, d: &Value) {
+        if let Some(names) = d["eos_extra_names"].as_array() {
+            for nm in names.iter().filter_map(|x| x.as_str()) {
+                let mut want = vec![0xFFu8];
+                want.extend_from_slice(nm.as_bytes());
+                if let Some(t) = self.words.iter().position(|w| *w == want) {
+                    let t = t as u32;
+                    if t != self.eos && !self.eos_extra.contains(&t) {
+                        self.eos_extra.push(t);
+                    }
+                }
+            }
+        }
+    }
+    pub fn all_eos(&self) -> Vec<u32> {
+        let mut all = vec![self.eos];
+        all.extend_from_slice(&self.eos_extra);
+        all
     }
     pub fn is_special(&self, t: u32) -> bool {
         self.words[t as usize].first() == Some(&0xFF)
@@ -47,6 +72,7 @@ impl Vocab {
         json!({
             "n": self.words.len(),
             "eos": self.eos,
+            "eosx": self.all_eos(),
             "canon": self.canonical as u32,
             "tok": self.words.iter().map(|w| crate::bytes_json(w)).collect::<Vec<_>>(),
         })
@@ -78,7 +104,7 @@ pub fn byte_vocab(canonical: bool) -> Vocab {
     let mut words: Vec<Vec<u8>> = (0..=255u8).map(|x| vec![x]).collect();
     words.extend(specials());
     let eos = words.len() as u32 - 1;
-    Vocab { words, eos, canonical }
+    Vocab { words, eos, canonical, eos_extra: vec![] }
 }
 
 /// Byte-pair encoding trained at run time on a corpus file: the offline stand-in for a
@@ -142,13 +168,22 @@ pub fn bpe_vocab(corpus: &[u8], merges: usize, canonical: bool) -> Vocab {
     }
     toks.extend(specials());
     let eos = toks.len() as u32 - 1;
-    Vocab { words: toks, eos, canonical }
+    Vocab { words: toks, eos, canonical, eos_extra: vec![] }
 }
 
 /// Build a vocabulary from a job descriptor:
 /// `{"kind":"byte"}`, `{"kind":"list","words":[[..]..],"eos":n}`,
 /// `{"kind":"bpe","corpus":path,"merges":n,"limit":bytes}`; optional `"canonical":0|1`.
 pub fn from_desc(d: &Value) -> Vocab {
+    let mut v = from_desc_inner(d);
+    if let Some(a) = d["eos_extra"].as_array() {
+        v.eos_extra = a.iter().filter_map(|x| x.as_u64()).map(|x| x as u32).filter(|&t| (t as usize) < v.words.len() && t != v.eos).collect();
+    }
+    v.add_auto_eos(d);
+    v
+}
+
+fn from_desc_inner(d: &Value) -> Vocab {
     let canonical = d["canonical"].as_u64().unwrap_or(0) != 0;
     match d["kind"].as_str().unwrap_or("byte") {
         "byte" => byte_vocab(canonical),
@@ -160,7 +195,7 @@ pub fn from_desc(d: &Value) -> Vocab {
                 .map(crate::json_bytes)
                 .collect();
             let eos = d["eos"].as_u64().expect("eos") as u32;
-            Vocab { words, eos, canonical }
+            Vocab { words, eos, canonical, eos_extra: vec![] }
         }
         "bpe" => {
             let path = d["corpus"].as_str().expect("corpus");
